@@ -218,7 +218,22 @@ partial def brOf (ctx : Ctx Float) (σ : Scope Float) : E → Cache → List Str
      else if (Lib.builtin floatOps fn [match typeP ctx σ a with | some .string => Value.str [] | some .int => .int 0 | some .bool => .bool true | some .duration => .dur 0 | _ => .float 0.0]).isSome then "call1-native" else "call1-oracle"] ++
       (if typeP ctx σ a == some .missing then ["arg-missing"] else []) ++ brOf ctx σ a c.k1
   | .call2 fn a b, c =>
-    [if Lib.nativeFns.contains fn then "call2-native" else "call2-oracle"] ++ brOf ctx σ a c.k1 ++ brOf ctx σ b c.k2
+    [if Lib.nativeFns.contains fn then "call2-native" else "call2-oracle"] ++
+      (if ["strTrim", "strTrimLeft", "strTrimRight", "strContainsAny", "strIndexAny", "strLastIndexAny"].contains fn then
+         -- rune-set functions: what kind of set (second argument, when it is a literal or a bound reference)
+         let cut : Option Bytes := match b with
+           | .lit (.str s) => some s
+           | .ref n => (match σ.get n with | some (.str s) => some s | _ => none)
+           | _ => none
+         match cut with
+         | some s =>
+           ["runeset"] ++
+           (if s.isEmpty then ["runeset-empty"] else []) ++
+           (if (Lib.runes s).any (fun r => r.2 ≥ 2) then ["runeset-multibyte-member"] else []) ++
+           (if (Lib.runes s).any (fun r => r.2 == 1 && r.1.length == 3) then ["runeset-invalid-byte-member"] else []) ++
+           (if s.all (fun x => x < 0x80) && !s.isEmpty then ["runeset-ascii"] else [])
+         | none => ["runeset-computed"]
+       else []) ++ brOf ctx σ a c.k1 ++ brOf ctx σ b c.k2
   | .call3 fn a b d, c =>
     [if fn == "if" then "call-if" else if fn == "strSubstring" then "call-substr" else "call3"] ++
       brOf ctx σ a c.k1 ++ brOf ctx σ b c.k2 ++ brOf ctx σ d c.k3
